@@ -184,6 +184,9 @@ func genC09(t *simrt.Tape, tier string) Scenario {
 			}
 			if sb.Via == "ScheduleWithTimeout" || sb.Via == "InvokeWithTimeout" {
 				sb.T = c09Dur(t, sc.Unit)
+				if t.Bool(1, 6) {
+					sb.T = []time.Duration{0, -time.Millisecond, time.Nanosecond}[t.Choose(3)] // no patience at all
+				}
 			}
 			if t.Bool(1, 4) {
 				sb.Pause = c09Dur(t, sc.Unit)
@@ -500,6 +503,24 @@ func (sc *c09Scenario) Check(res *simrt.Result) []Violation {
 		}
 		if j.spec.Kind == "panic" && len(j.starts) > 0 {
 			sc.probes["job-panicked"]++
+		}
+		if T, timed := j.sub.Val.(time.Duration); timed && (j.sub.Name == "ScheduleWithTimeout" || j.sub.Name == "InvokeWithTimeout") && res.Faults["stall"] == 0 {
+			// whatever its outcome, a call with a timeout is over one retry interval after the deadline at the latest
+			// (stall-free runs only: virtual time passes only while every thread is blocked, so a late return is the
+			// caller's own doing; an injected stall may legitimately delay it)
+			eff := time.Duration(0)
+			if T > 0 {
+				eff = sc.RetryDur
+				if eff > T/3 {
+					eff = T / 3
+				}
+			} else {
+				T = 0
+			}
+			if d := j.sub.TRet - j.sub.TInv; d > T+eff+time.Microsecond {
+				add("timeout", "returns-long-after-the-timeout", fmt.Sprintf("%s took %v of virtual time in a stall-free run; timeout %v, retry interval %v", j.sub.String(), d, T, sc.RetryDur))
+			}
+			sc.probes["timed-call-checked-against-its-deadline"]++
 		}
 		rejected := j.sub.Err != nil
 		if rejected {
